@@ -300,6 +300,36 @@ def run(prop, tier, jobs=14, only=None):
     return res
 
 
+def run_named(names, jobs=8):
+    """Run the named harnesses regardless of property and tier (used to decide
+    whether a failed Verus obligation has a *complete* Kani lemma of the same
+    contract that still holds). -> {name: True iff discharged for every property
+    the harness serves and the harness is complete}"""
+    metas = load_meta()
+    sel = select(metas, None, "thorough", names)
+    if not sel:
+        return {}
+    with common.WorkLock("kani"):
+        crate = sync_crate()
+        export = os.path.join(WORK, "kani-paired.json")
+        log = os.path.join(WORK, "kani-paired.log")
+        cmd = kani_cmd(sel, jobs, 1800, export)
+        rc, out = common.run(cmd, cwd=crate, env={"CARGO_TARGET_DIR": os.path.join(WORK, "target")},
+                             log=log, limit_mem=True)
+    if re.search(r"^error(\[E\d+\])?:", out, re.M) and "Checking harness" not in out:
+        return {}
+    parsed = parse_terse(out)
+    res = {}
+    for m in sel:
+        r = parsed.get(m["full"])
+        ok = m["kind"] == "complete"
+        for pr in m["props"]:
+            status, _, _ = classify(m, r, pr)
+            ok = ok and status == "discharged"
+        res[m["name"]] = ok
+    return res
+
+
 def scan_trusted(sel):
     """Mechanical scan of the harness crate for stubs and whitelists."""
     out = set()
